@@ -262,6 +262,21 @@ def unit_default_twice():
             "entries": {"eval_root": {"kind": "eval", "fn": "root"}}, "eps": [{"id": "A", "kind": "default_value", "n": 2, "values": ["1", "2"]}]}
 
 
+SHADOWS = ["listcomp", "genexp", "dictcomp", "setcomp"]   # a lambda called where it is written crashes the analysis (outside the family)
+
+
+def unit_shadow(how):
+    """K binds a local name equal to the name of a module variable (comprehension target, lambda parameter): it cannot observe the variable"""
+    var = {"name": "V0", "module": "main", "values": ["1", "2"]}
+    s = _scaffold([{"k": "shadow", "var": "V0", "how": how}], vars_=[var], eps=[{"id": "V0", "kind": "shadowed_var", "n": 2}],
+                  sid=f"U/shadow/{how}", key=f"shadow|{how}")
+    # the sibling does read the variable (so the edit is observable somewhere)
+    for f in s["funcs"]:
+        if f["name"] == "S":
+            f["body"] = [{"k": "read", "var": "V0"}]
+    return s
+
+
 def unit_structural(kind):
     """edits outside every cone: unrelated definitions, reordering, comments"""
     var = {"name": "V0", "module": "main", "values": ["1"]}
@@ -299,6 +314,7 @@ def unit_programs(level="quick"):
     out.append(unit_untracked_obj())
     out += [unit_twice(k) for k in ("x", "x_default", "x_lit")]
     out.append(unit_default_twice())
+    out += [unit_shadow(h) for h in SHADOWS]
     return out
 
 
